@@ -862,3 +862,107 @@ Lemma merge_demo :
   get_parameters_value gen_demo true [([113]%N, JNull); ([114]%N, JNull)] [[114]%N; [113]%N] (Some [([113]%N, JInt 7)])
   = Some [([113]%N, JInt 7); ([114]%N, JNull)].
 Proof. reflexivity. Qed.
+
+(* ------------------------------------------------------------------ *)
+(* extraction on schema fragments                                      *)
+(* ------------------------------------------------------------------ *)
+Lemma singles_In efs subs s ef v :
+  In s subs -> In ef efs -> obj_get ef s = Some v -> In v (singles efs subs).
+Proof.
+  intros Hs He Hv. unfold singles. apply in_flat_map. exists s. split; [exact Hs|].
+  apply in_flat_map. exists ef. split; [exact He|]. rewrite Hv. left. reflexivity.
+Qed.
+
+Lemma branch_in_expand d key l b subs :
+  key = s_anyOf \/ key = s_oneOf ->
+  assoc_get key d = Some (JArr l) -> In b l -> expand_res (JObj d) = Ok subs -> In b subs.
+Proof.
+  intros Hkey Hget Hb H. unfold expand_res in H.
+  unfold branch_list in H.
+  destruct (assoc_get s_anyOf d) as [xa|] eqn:Ea; [destruct xa; try discriminate|];
+  destruct (assoc_get s_oneOf d) as [xo|] eqn:Eo; try (destruct xo; try discriminate);
+  cbn [bind] in H;
+  (destruct (assoc_get s_allOf d) as [xl|] eqn:El;
+   [destruct xl as [| | | |[|first rest]|]; try discriminate;
+    destruct (fold_left merge_sub rest (Some first)); try discriminate |]);
+  inversion H; subst subs; clear H;
+  destruct Hkey as [-> | ->]; rewrite Hget in *; try discriminate;
+  match goal with
+  | E : Some (JArr _) = Some (JArr _) |- _ => inversion E; subst; clear E
+  | _ => idtac
+  end;
+  cbn [In]; right; rewrite ?in_app_iff; auto.
+Qed.
+
+(* an example written on an anyOf / oneOf branch (or on the schema itself) is
+   among the extracted top-level values whenever extraction does not raise *)
+Lemma branch_examples_extracted d key l b ef efs esf v vs :
+  key = s_anyOf \/ key = s_oneOf ->
+  assoc_get key d = Some (JArr l) -> In b l -> In ef efs -> obj_get ef b = Some v ->
+  top_values_res efs esf (JObj d) = Ok vs -> In v vs.
+Proof.
+  intros Hkey Hget Hb He Hv H. unfold top_values_res in H.
+  destruct (expand_res (JObj d)) as [subs|e] eqn:Ex; [|discriminate]. cbn [bind] in H.
+  destruct (fold_left (multi_step esf) subs (Ok [])) as [multi|e]; [|discriminate]. cbn [bind] in H.
+  inversion H; subst vs. apply in_or_app. left.
+  eapply singles_In; [|exact He|exact Hv]. eapply branch_in_expand; eassumption.
+Qed.
+
+Lemma self_example_extracted d ef efs esf v vs :
+  In ef efs -> assoc_get ef d = Some v ->
+  top_values_res efs esf (JObj d) = Ok vs -> In v vs.
+Proof.
+  intros He Hv H. unfold top_values_res in H.
+  destruct (expand_res (JObj d)) as [subs|e] eqn:Ex; [|discriminate]. cbn [bind] in H.
+  destruct (fold_left (multi_step esf) subs (Ok [])) as [multi|e]; [|discriminate]. cbn [bind] in H.
+  inversion H; subst vs. apply in_or_app. left.
+  apply (singles_In efs subs (JObj d) ef v); [|exact He|exact Hv].
+  unfold expand_res in Ex.
+  destruct (branch_list s_anyOf d); [|discriminate]. destruct (branch_list s_oneOf d); [|discriminate].
+  cbn [bind] in Ex.
+  destruct (assoc_get s_allOf d) as [xl|];
+    [destruct xl as [| | | |[|first rest]|]; try discriminate;
+     destruct (fold_left merge_sub rest (Some first)); try discriminate |];
+  inversion Ex; left; reflexivity.
+Qed.
+
+(* witnesses of the refuted regions *)
+Definition sch_allof_20 : json :=
+  JObj [(s_allOf, JArr [JObj [(s_example, JInt 1)]; JObj [(s_example, JInt 2)]])].
+Lemma allof_examples_20_refuted :
+  top_values [s_example; s_x_example] s_x_examples sch_allof_20 = XOk [JInt 1] /\
+  top_values [s_example] s_examples sch_allof_20 = XOk [JInt 1; JInt 2].
+Proof. split; reflexivity. Qed.
+
+Definition sch_allof_x : json :=
+  JObj [(s_allOf, JArr [JObj [(s_x_example, JInt 1)]; JObj [(s_x_example, JInt 2)]])].
+Lemma allof_x_example_refuted :
+  top_values [s_example; s_x_example] s_x_examples sch_allof_x = XOk [JInt 2].
+Proof. reflexivity. Qed.
+
+Definition sch_nested : json :=
+  JObj [(s_anyOf, JArr [JObj [(s_anyOf, JArr [JObj [(s_example, JInt 1)]])]])].
+Lemma nested_branch_refuted : top_values [s_example] s_examples sch_nested = XOk [].
+Proof. reflexivity. Qed.
+
+Definition sch_prop_in_branch : json :=
+  JObj [(s_allOf, JArr [JObj [(s_properties, JObj [([97]%N, JObj [(s_example, JInt 1)])])]])].
+Lemma property_in_branch_refuted : forall fuel g,
+  extract_from_schema (S fuel) g s_example s_examples sch_prop_in_branch = XOk [] /\
+  top_values [s_example] s_examples sch_prop_in_branch = XOk [].
+Proof. intros fuel g. split; reflexivity. Qed.
+
+(* while a property example directly under the schema is extracted *)
+Definition sch_prop : json :=
+  JObj [(s_properties, JObj [([97]%N, JObj [(s_example, JInt 1)]);
+                             ([98]%N, JObj [(s_anyOf, JArr [JObj [(s_example, JInt 2)]; JObj [(s_examples, JArr [JInt 3])]])])])].
+Lemma property_examples_demo :
+  extract_from_schema 5 JNull s_example s_examples sch_prop
+  = XOk [JObj [([97]%N, JInt 1); ([98]%N, JInt 2)]; JObj [([97]%N, JInt 1); ([98]%N, JInt 3)]].
+Proof. reflexivity. Qed.
+
+Lemma branch_demo :
+  top_values [s_example] s_examples
+    (JObj [(s_oneOf, JArr [JObj [(s_example, JInt 1)]; JObj [(s_examples, JArr [JInt 2; JInt 3])]])])
+  = XOk [JInt 1; JInt 2; JInt 3].
+Proof. reflexivity. Qed.
